@@ -688,3 +688,23 @@ Definition finalise (c : hclass) (h : hdr) : hdr :=
   if is_nifti c then setf f_magic (pad_to 4 (if is_single_of c then single_magic_of c else pair_magic_of c)) h else h.
 Definition written (c : hclass) (be : bool) (ws : list (Z * list Z)) : list Z :=
   encode_struct (layout_of c) (match c with Mgh => true | _ => be end) (finalise c (apply_writes ws (default_hdr c))).
+
+(* the public setters, as the fields each was measured to write (Tables.setter_writes_*: regenerated on
+   every run by diffing the header fields before / after calls with random arguments) *)
+Definition setter_writes_of (c : hclass) : list (list Z) :=
+  match c with
+  | Analyze => setter_writes_analyze | Spm99 => setter_writes_spm99 | Spm2 => setter_writes_spm2
+  | Nifti1 => setter_writes_nifti1 | Nifti1Pair => setter_writes_nifti1pair | Nifti2 => setter_writes_nifti2
+  | Nifti2Pair => setter_writes_nifti2pair | Mgh => setter_writes_mgh | Ecat => setter_writes_ecat
+  end.
+(* one write made by some public setter: a field of some setter's write set, fitting values, xform codes
+   from the recoder (measured too: set_qform / set_sform never store another code) *)
+Definition setter_write (c : hclass) (w : Z * list Z) : bool :=
+  let (i, vs) := w in
+  existsb (memZ i) (setter_writes_of c)
+  && match find_field i (layout_of c) with
+     | Some f => vals_fitb f vs
+                 && (negb ((i =? f_qform_code) || (i =? f_sform_code))
+                     || forallb (fun v => memZ (to_signed (fwidth f) v) (xform_codes_of c)) vs)
+     | None => false
+     end.
